@@ -685,7 +685,9 @@ pub fn structural_floors(thorough: bool) -> Vec<(&'static str, u64)> {
         ("family:fanout", 700),
         ("family:fanout-x-width", 100),
         ("family:duplicated-wide-fans", 80),
-        ("family:cache-digest-collision", 40),
+        ("family:cache-digest-collision", 80),
+        ("family:fan-then-single-path-to-the-shared-suffix", 150),
+        ("family:recurring-wide-nodes-after-filler", 6),
         ("family:single-bytes", 500),
         ("family:long-keys", 16),
         ("family:dense-product", 6),
